@@ -611,3 +611,32 @@ def r08c(ctx):
 )
 def r19c(ctx):
     _r08c(ctx, _in_pkg_nontest, 1500)
+
+
+@rule(
+    "R08f",
+    ["C07", "C08"],
+    """zip() PAIRS SEQUENCES THAT ARE IN THE SAME ORDER: `zip(sorted(xs), f(xs))` pairs the i-th SMALLEST x with the i-th value of f in the
+    ORIGINAL order of xs. When one argument of a zip is `sorted(...)` / `reversed(...)` of a name and another argument is built from the
+    same name without that reordering, the pairs are wrong for every xs that is not already sorted (PivotTable's hand-written meta gave
+    each value column the dtype of another column).""",
+)
+def r08f(ctx):
+    model = ctx.model
+    n = 0
+    for mod, cls, fn in model.all_functions():
+        for z in (x for x in ast.walk(fn) if isinstance(x, ast.Call) and dotted(x.func) == "zip" and len(x.args) >= 2):
+            n += 1
+            reordered = [a for a in z.args if isinstance(a, ast.Call) and dotted(a.func) in ("sorted", "reversed") and a.args]
+            if not reordered:
+                continue
+            fq = qual(cls, fn) if cls is not None else f"{mod.name.split('.', 1)[-1]}.{fn.name}"
+            for r in reordered:
+                base = {y.id for y in ast.walk(r.args[0]) if isinstance(y, ast.Name)}
+                for other in z.args:
+                    if other is r or (isinstance(other, ast.Call) and dotted(other.func) == dotted(r.func)):
+                        continue
+                    if base & {y.id for y in ast.walk(other) if isinstance(y, ast.Name)}:
+                        ctx.bad(f"{fq}:zip-order:{ast.unparse(z)[:60]}", mod.loc(z), f"`{ast.unparse(z)[:100]}` pairs `{ast.unparse(r)}` with `{ast.unparse(other)[:50]}`, which is built from the same sequence in its ORIGINAL order: unless that sequence happens to be sorted, every element is paired with the value of another one")
+    ctx.ok("zips-scanned", "", f"{n} zip() calls scanned for mixed orders")
+    ctx.floor("zip calls", n, 15)
